@@ -96,7 +96,7 @@ class TCPServer:
                 await self.idle_task.stop()
 
     async def _read_data(self) -> None:
-        while not self.reader.at_eof():
+        while True:
             try:
                 data = await asyncio.wait_for(self.reader.read(MAX_RECV), self.config.read_timeout)
             except (
@@ -109,6 +109,12 @@ class TCPServer:
                 break
             else:
                 await self.protocol.handle(RawData(data))
+                if data == b"":
+                    # The end of the client's stream, which the protocol
+                    # has now been told of even if it arrived together
+                    # with the last data (at_eof() is then already true
+                    # once that data has been read).
+                    break
 
         await self.protocol.handle(Closed())
 
